@@ -9,8 +9,10 @@
 // still blocked when the run ends.
 //
 // Semantics are those of sync.Mutex / sync.RWMutex (zero value usable, unlock
-// of an unlocked mutex panics, readers share, a writer excludes); there is no
-// writer preference, which only matters for starvation, not for correctness.
+// of an unlocked mutex panics, readers share, a writer excludes), including the
+// documented writer preference: while a Lock call waits, new RLock calls wait
+// too - which is what turns a recursive read lock into a deadlock as soon as a
+// writer arrives between the two RLock calls.
 // It is linked into packages of /repo through an import-path overlay.
 package simsyncd
 
@@ -83,10 +85,11 @@ func (m *Mutex) Unlock() {
 
 // RWMutex mirrors sync.RWMutex.
 type RWMutex struct {
-	mu      sync.Mutex
-	writer  bool
-	readers int
-	waiters []chan struct{}
+	mu       sync.Mutex
+	writer   bool
+	readers  int
+	pendingW int // Lock calls that wait for the readers to drain
+	waiters  []chan struct{}
 }
 
 func (m *RWMutex) wait() {
@@ -107,12 +110,20 @@ func (m *RWMutex) wake() {
 
 // Lock locks m for writing.
 func (m *RWMutex) Lock() {
+	pending := false
 	for {
 		m.mu.Lock()
 		if !m.writer && m.readers == 0 {
 			m.writer = true
+			if pending {
+				m.pendingW--
+			}
 			m.mu.Unlock()
 			return
+		}
+		if !pending {
+			pending = true
+			m.pendingW++
 		}
 		m.wait()
 	}
@@ -144,7 +155,7 @@ func (m *RWMutex) Unlock() {
 func (m *RWMutex) RLock() {
 	for {
 		m.mu.Lock()
-		if !m.writer {
+		if !m.writer && m.pendingW == 0 {
 			m.readers++
 			m.mu.Unlock()
 			return
@@ -157,7 +168,7 @@ func (m *RWMutex) RLock() {
 func (m *RWMutex) TryRLock() bool {
 	m.mu.Lock()
 	defer m.mu.Unlock()
-	if m.writer {
+	if m.writer || m.pendingW > 0 {
 		return false
 	}
 	m.readers++
